@@ -146,6 +146,41 @@ impl<T: Clone> Stack<T> {
     }
 }
 
+#[cfg(pest_parser_pest_verif)]
+impl<T: Clone> Stack<T> {
+    /// Number of snapshots currently open (monitoring builds only).
+    pub fn verif_snapshot_depth(&self) -> usize {
+        self.lengths.len()
+    }
+
+    /// Checks the bookkeeping the fields' documentation promises (monitoring builds only):
+    /// for every open snapshot `remained <= len`, `remained` never exceeds what is
+    /// still in `cache`, inner snapshots never claim more than outer ones kept, and `popped`
+    /// holds exactly the elements the open snapshots need to rewind.
+    pub fn verif_check_invariants(&self) -> Result<(), alloc::string::String> {
+        let mut total = 0usize;
+        for (i, &(len, remained)) in self.lengths.iter().enumerate() {
+            if remained > len {
+                return Err(alloc::format!("snapshot {i}: remained {remained} > len {len}"));
+            }
+            if remained > self.cache.len() {
+                return Err(alloc::format!(
+                    "snapshot {i}: remained {remained} > cache {}",
+                    self.cache.len()
+                ));
+            }
+            total += len - remained;
+        }
+        if total != self.popped.len() {
+            return Err(alloc::format!(
+                "popped holds {} elements, snapshots account for {total}",
+                self.popped.len()
+            ));
+        }
+        Ok(())
+    }
+}
+
 impl<T: Clone> Index<Range<usize>> for Stack<T> {
     type Output = [T];
 
